@@ -83,3 +83,24 @@ for op in (11, 12):
     sfl_jobs(op, 'baseline', 'thorough', (1, 2, 4), timeout=1200)
 sfl_jobs(13, 'check', 'quick', (3,), lays=((1, 0),))
 sfl_jobs(13, 'debug8', 'thorough', (1, 2, 3, 4), timeout=1200)
+
+# ---------------------------------------------------------------- C18 (a): min_block_size of the small list vs the real insert()
+SFL_INSERT = 'F__ZN9foonathan6memory6detail22small_free_memory_list6insertEPvm'
+def c18_sfl(ns, k, tier):
+    add('c18-sfl-minblock-ns%d-k%d' % (ns, k), ['C18'], 'freelist', 'c18_minblock.c', config='release',
+        defines=['KIND=3', 'NS=%d' % ns, 'K=%d' % k, 'HEAP_SIZE=64', 'IR_PHANTOM'], unwind=4,
+        unwindset=['ph_find.0:13', SFL_INSERT + '.0:257', SFL_INSERT + '.1:%d' % (k + 2), SFL_INSERT + '.2:%d' % (k + 2),
+                   SFL_INSERT + '.3:257', SFL_INSERT + '.4:4'], timeout=300, tier=tier,
+        desc='small_free_memory_list: insert() on min_block_size(ns, n) bytes yields >= n nodes, for every n with chunk_count(n) = %d' % k,
+        bounds='node size %d (constant of the query), all n in (%d, %d]; block in a sparse phantom region (header lines exact, payload bytes write-only)' % (ns, 255 * (k - 1), 255 * k))
+for ns in (1, 2, 3, 5, 8, 451):
+    for k in (1, 2, 8):
+        c18_sfl(ns, k, 'quick')
+for ns in list(range(1, 33)) + [63, 64, 65, 127, 128, 129, 255, 256, 257, 451, 511, 512]:
+    for k in range(1, 9):
+        if not (ns in (1, 2, 3, 5, 8, 451) and k in (1, 2, 8)):
+            c18_sfl(ns, k, 'thorough')
+
+for kind, kname in ((1, 'free_memory_list'), (2, 'ordered_free_memory_list')):
+    add('c18-%s-minblock' % kname, ['C18'], 'freelist', 'c18_minblock.c', config='release', defines=['KIND=%d' % kind, 'HEAP_SIZE=64'],
+        unwind=4, timeout=300, desc='%s: min_block_size/usable_size/node_size arithmetic' % kname, bounds='all node sizes 1..512, all n 1..2000 (symbolic)')
